@@ -90,7 +90,7 @@ func (h *c06gen) count() uint32 {
 	return []uint32{0, 1, 2, m - 24, m - 23, m, m + 1, 0xFFFFFFF0, 0xFFFFFFFF, 0x7FFFFFFF, 0x80000000, uint32(h.r.Intn(300))}[h.r.Intn(12)]
 }
 func (h *c06gen) offset() uint64 {
-	return []uint64{0, 1, 2, 13, 57, 58, 59, 60, 61, 100, 1 << 31, 1 << 32, 1<<63 - 1, 1 << 63, 1<<64 - 1, uint64(h.r.Intn(4000))}[h.r.Intn(16)]
+	return []uint64{0, 1, 2, 9, 10, 11, 12, 13, 57, 58, 59, 60, 61, 100, 1 << 31, 1 << 32, 1<<63 - 1, 1 << 63, 1<<64 - 1, uint64(h.r.Intn(4000))}[h.r.Intn(20)]
 }
 func (h *c06gen) name() string {
 	r := h.r
@@ -515,7 +515,79 @@ func parseC06(line string) (kind, target string, msize uint32, dotu bool, seed i
 	return
 }
 
+// replaySystematic re-runs one session of the systematic part from its journal line.
+func replaySystematic(line string) (string, bool) {
+	t := strings.Fields(line)
+	kv := map[string]string{}
+	for _, x := range t[2:] {
+		if p := strings.SplitN(x, "=", 2); len(p) == 2 {
+			kv[p[0]] = p[1]
+		}
+	}
+	msize := uint32(atou(kv["msize"], 32))
+	dotu := kv["dotu"] == "true"
+	if msize < 24 || kv["target"] == "" {
+		return "bad-op", false
+	}
+	r := rand.New(rand.NewSource(int64(msize) + 7))
+	h := &c06gen{r: r, msize: msize, dotu: dotu}
+	vs := h.validSession()
+	e, err := newC06srv(kv["target"], msize, dotu, r)
+	if err != nil {
+		return "setup-failed", false
+	}
+	defer e.closef()
+	var stream []byte
+	switch t[1] {
+	case "truncation":
+		fi, cut := int(atou(kv["frame"], 31)), int(atou(kv["cut"], 31))
+		if fi >= len(vs) || cut > len(vs[fi]) || cut < 7 {
+			return "bad-op", false
+		}
+		for _, p := range vs[:fi] {
+			stream = append(stream, p...)
+		}
+		fr := append([]byte(nil), vs[fi][:cut]...)
+		binary.LittleEndian.PutUint32(fr, uint32(cut))
+		stream = append(stream, fr...)
+	case "grid":
+		fid := uint32(atou(kv["fid"], 32))
+		for _, p := range vs[:len(vs)-3] {
+			stream = append(stream, p...)
+		}
+		counts := []uint32{0, 1, 2, msize - 24, msize - 23, msize, 0x7FFFFFFF, 0x80000000, 0xFFFFFFE8, 0xFFFFFFF0, 0xFFFFFFFF}
+		tag := uint16(100)
+		for _, off := range gridOffsets {
+			for _, cnt := range counts {
+				stream = append(stream, rawFrame(g.Tread, tag, cat(le32(fid), le64(off), le32(cnt)))...)
+				tag++
+			}
+			stream = append(stream, rawFrame(g.Twrite, tag, cat(le32(fid), le64(off), le32(3), []byte("abc")))...)
+			tag++
+		}
+	default:
+		return "ok", true
+	}
+	cn := e.newc()
+	stop := make(chan bool)
+	go (&rawConn{cn}).drain(stop)
+	cn.SetWriteDeadline(time.Now().Add(2 * time.Second))
+	cn.Write(stream)
+	time.Sleep(5 * time.Millisecond)
+	close(stop)
+	cn.Close()
+	fresh := e.newc()
+	defer fresh.Close()
+	if !probeConn(fresh, msize) {
+		return "new-connection-not-served", true
+	}
+	return "ok", true
+}
+
 func execC06(line string) (string, bool) {
+	if t := strings.Fields(line); len(t) >= 2 && (t[1] == "truncation" || t[1] == "grid" || t[1] == "systematic") {
+		return replaySystematic(line)
+	}
 	kind, target, msize, dotu, seed, ok := parseC06(line)
 	if !ok {
 		return "bad-op", false
@@ -523,7 +595,81 @@ func execC06(line string) (string, bool) {
 	return runC06(line, kind, target, msize, dotu, seed), true
 }
 
+var gridOffsets = []uint64{0, 1, 9, 10, 11, 12, 13, 100, 4096, 1 << 31, 1<<32 - 1, 1 << 32, 1<<63 - 1, 1 << 63, 1<<64 - 1}
+
+// systematic part: (a) every request of the valid session cut at every length, size fixed up;
+// (b) reads and writes on every fid the session set up, at every offset x count of a grid.
+func c06Systematic(c *Ctx) {
+	for _, target := range []string{"scripted", "ufs"} {
+		for _, dotu := range []bool{false, true} {
+			for _, msize := range []uint32{128, 8192} {
+				r := rand.New(rand.NewSource(int64(msize) + 7))
+				h := &c06gen{r: r, msize: msize, dotu: dotu}
+				vs := h.validSession()
+				e, err := newC06srv(target, msize, dotu, r)
+				if err != nil {
+					continue
+				}
+				by := e.newc()
+				probeConn(by, msize)
+				session := func(line string, stream []byte) {
+					c.begin(line)
+					cn := e.newc()
+					stop := make(chan bool)
+					go (&rawConn{cn}).drain(stop)
+					cn.SetWriteDeadline(time.Now().Add(2 * time.Second))
+					cn.Write(stream)
+					time.Sleep(300 * time.Microsecond)
+					close(stop)
+					cn.Close()
+				}
+				// (a) truncations
+				for fi, f := range vs {
+					for cut := 7; cut < len(f); cut++ {
+						fr := append([]byte(nil), f[:cut]...)
+						binary.LittleEndian.PutUint32(fr, uint32(cut))
+						var stream []byte
+						for _, p := range vs[:fi] {
+							stream = append(stream, p...)
+						}
+						stream = append(stream, fr...)
+						session(fmt.Sprintf("c06 truncation target=%s msize=%d dotu=%v frame=%d cut=%d hex=%x", target, msize, dotu, fi, cut, fr), stream)
+						c.count("systematic:truncation")
+					}
+				}
+				// (b) the offset x count grid on the fids of the set-up
+				counts := []uint32{0, 1, 2, msize - 24, msize - 23, msize, 0x7FFFFFFF, 0x80000000, 0xFFFFFFE8, 0xFFFFFFF0, 0xFFFFFFFF}
+				for fid := uint32(0); fid < 4; fid++ {
+					var stream []byte
+					for _, p := range vs[:len(vs)-3] {
+						stream = append(stream, p...)
+					}
+					tag := uint16(100)
+					for _, off := range gridOffsets {
+						for _, cnt := range counts {
+							stream = append(stream, rawFrame(g.Tread, tag, cat(le32(fid), le64(off), le32(cnt)))...)
+							tag++
+						}
+						stream = append(stream, rawFrame(g.Twrite, tag, cat(le32(fid), le64(off), le32(3), []byte("abc")))...)
+						tag++
+					}
+					session(fmt.Sprintf("c06 grid target=%s msize=%d dotu=%v fid=%d", target, msize, dotu, fid), stream)
+					c.count("systematic:grid")
+				}
+				time.Sleep(2 * time.Millisecond)
+				if !probeConn(by, msize) {
+					c.oracleFail("C06/bystander-not-served/"+target, "after the systematic sessions", fmt.Sprintf("c06 systematic target=%s msize=%d dotu=%v", target, msize, dotu))
+				}
+				by.Close()
+				e.closef()
+			}
+		}
+	}
+	c.emit("c06 systematic", "ok", true)
+}
+
 func genC06(c *Ctx) {
+	c06Systematic(c)
 	i := 0
 	for k := 0; k < c.scale(2500, 60000) && !c.stop(); k++ {
 		i++
